@@ -299,6 +299,7 @@ void File_uncompressedFile2CompressedFile(struct File *self) { CALLSITE; g_rp_u2
     asr = [
         ('C06/File/close/write-session-declares-end-of-input-before-joining-the-workers', 'g_eos_queue == 1 && g_eos_queue_arg == qtellp && g_join_u_ready == 1'),
         ('C06/File/close/write-session-joins-the-compressor-after-the-encoder-(which-declares-its-end-of-stream-on-exit)', 'g_join_z_ready == 1'),
+        ('C13/File/close/write-session-each-worker-is-joined-only-after-what-it-may-wait-for-was-released-(no-thread-left-behind)', 'g_join_u_ready == 1 && g_join_z_ready == 1'),
         ('C13/File/close/write-session-joins-both-workers-exactly-once-and-closes-the-file', 'f.m_uncompressedFileThread.joined == 1 && f.m_compressedFileThread.joined == 1 && g_closed == 1 && !C.copen'),
         ('C05/File/close/restore-point-offset-is-the-file-position-before-the-trailer-when-enabled', '!f.writeRestorePoints || (f.fileStatistics.restorePointsOffset == (uint64_t)cp0 && g_next_calls == 1 && g_rp_q2u == 1 && g_rp_u2c == 1)'),
         ('C05/File/close/no-trailer-when-restore-points-are-disabled', 'f.writeRestorePoints || (g_next_calls == 0 && g_rp_q2u == 0 && g_rp_u2c == 0 && f.fileStatistics.restorePointsOffset == st0.restorePointsOffset)'),
@@ -315,6 +316,7 @@ void File_uncompressedFile2CompressedFile(struct File *self) { CALLSITE; g_rp_u2
     asr = [
         ('C06/File/close/read-session-releases-every-wait-before-joining-(abort-on-stream-and-queue-flags-cleared)', 'g_abort_u == 1 && g_abort_q == 1 && !f.m_uncompressedFileThreadRunning && !f.m_compressedFileThreadRunning'),
         ('C06/File/close/read-session-each-join-happens-after-the-waits-of-that-worker-were-released', 'g_join_u_ready == 1 && g_join_z_ready == 1'),
+        ('C13/File/close/read-session-each-worker-is-joined-only-after-what-it-may-wait-for-was-released-(no-thread-left-behind)', 'g_join_u_ready == 1 && g_join_z_ready == 1'),
         ('C13/File/close/read-session-joins-both-workers-and-closes-the-file', 'f.m_uncompressedFileThread.joined == 1 && f.m_compressedFileThread.joined == 1 && g_closed == 1 && !C.copen'),
         ('C13/File/close/read-session-writes-nothing', 'g_stats_written == 0 && g_seekp_calls == 0'),
     ]
